@@ -14,6 +14,13 @@ the excluded points).
 * H/He: `hHe_iterate_range_partial` (one loop body; hypothesis `0 ≤ ch` forced by the proof);
   **convergence of the fixed point within 20 iterations (no `cmac_error`) is NOT a theorem** — it
   is searched on the implementation by the correspondence run;
+* H/He, whole solve under the premise CHECKED by the model run on every case (`offDom`):
+  `hHe_solve_range_checked`;
+* balance function (`compute_cooling_and_heating_balance`, line cooling uninterpreted):
+  `balance_nonneg`, `abund_range`, `balModel_ok`;
+* state left in the cell: `temperature_state_physical` (every physical balance function),
+  `temperature_model_state_physical`, `temperature_model_state_checked` (modelled balance);
+  `cell_output_independent_of_previous_state`;
 * temperature: `temperature_range` for EVERY balance function, tolerance and iteration count,
   with the corollaries `temperature_range_iterated`, `temperature_range_default`.
 -/
@@ -220,9 +227,6 @@ structure MetalHyp (m : MetalIn ℝ) : Prop where
   dS32 : 0 < m.ne * m.aSp2 + m.nh0 * m.rSp2H + m.nhe0 * m.rSp2He
   dS43 : 0 < m.ne * m.aSp3 + m.nh0 * m.rSp3H + m.nhe0 * m.rSp3He
 
-/-- physical metal state: every fraction in `[0,1]`, tracked stages of one element sum to ≤ 1 -/
-def MetalOut.ok (o : MetalOut ℝ) : Prop := o.c.ok ∧ o.n.ok ∧ o.o.ok ∧ o.ne.ok ∧ o.s.ok
-
 /-- Given non-negative intensities / charge-transfer ionization and positive denominators,
 every ionic fraction computed by `compute_ionization_states_metals` lies in `[0,1]` and the
 tracked stages of each element sum to at most 1. -/
@@ -326,21 +330,38 @@ theorem hHe_iterate_range_partial (c : HHeCoef ℝ) (niter : Nat) (s : HHeState 
     (hche : 0 ≤ c.che) (hA : 0 ≤ c.aHe) (hh : 0 < s.h0 ∧ s.h0 < 1) (hhe : s.he0 ≤ 1)
     (hch : 0 ≤ chIter c s) :
     (0 ≤ (hHeIterate c niter s).h0 ∧ (hHeIterate c niter s).h0 ≤ 1) ∧
-    (0 ≤ (hHeIterate c niter s).he0 ∧ (hHeIterate c niter s).he0 ≤ 1) := by
-  have he := heNew_range c.che c.aHe s.h0 hche hA hh.2.le
-  have hh' := hNew_range (chIter c s) c.aHe (heNew c.che c.aHe s.h0) hch hA he.2
-  have hold : 0 ≤ he0oldOf s.he0 ∧ he0oldOf s.he0 ≤ 1 := by
-    unfold he0oldOf
-    split_ifs with h
-    · norm_num at h; exact ⟨h.le, hhe⟩
-    · norm_num
-  unfold hHeIterate
-  simp only []
-  split_ifs with hn
-  · simp only []
-    norm_num
-    refine ⟨⟨?_, ?_⟩, ⟨?_, ?_⟩⟩ <;> linarith [hh.1, hh.2, he.1, he.2, hh'.1, hh'.2, hold.1, hold.2]
-  · exact ⟨hh', he⟩
+    (0 ≤ (hHeIterate c niter s).he0 ∧ (hHeIterate c niter s).he0 ≤ 1) :=
+  hHeIterate_range c niter s hche hA hh hhe hch
+
+/-- The whole solve under a CHECKED premise.  `offDom` is computed by the model itself (and so by
+the bit-identical `Float` run on every generated case): it is `false` iff every executed loop body
+started with `0 < h0old < 1` and `ch ≥ 0`, the hypotheses of `hHe_iterate_range_partial`.  Whenever
+the flag is `false` the result of `compute_ionization_states_hydrogen_helium` — converged or not —
+lies in `[0,1]²`, for all non-negative rates, density and abundance and every temperature.
+(The check reports how often the flag is raised inside the stated domain: 0.)
+
+PARTIAL in what it leaves open: that the flag stays `false` for the shipped tables on the whole
+domain, and that the loop exits before the 21st body, remain searched. -/
+theorem hHe_solve_range_checked (alphaH alphaHe jH jHe nH aHe T : ℝ) (h1 : 0 ≤ alphaH)
+    (h2 : 0 ≤ alphaHe) (h3 : 0 ≤ nH) (h4 : 0 ≤ aHe)
+    (hoff : (hHeSolve alphaH alphaHe jH jHe nH aHe T).offDom = false) :
+    (0 ≤ (hHeSolve alphaH alphaHe jH jHe nH aHe T).h0 ∧
+      (hHeSolve alphaH alphaHe jH jHe nH aHe T).h0 ≤ 1) ∧
+    (0 ≤ (hHeSolve alphaH alphaHe jH jHe nH aHe T).he0 ∧
+      (hHeSolve alphaH alphaHe jH jHe nH aHe T).he0 ≤ 1) := by
+  unfold hHeSolve at hoff ⊢
+  split_ifs at hoff ⊢ with hj
+  · norm_num
+  · have hj0 : 0 ≤ jH := by
+      have : (1.0e-20:ℝ) ≤ jH := not_lt.mp hj
+      exact le_trans (by norm_num) this
+    obtain ⟨c1, c2, c3⟩ := hHeCoef_nonneg alphaH alphaHe jH jHe nH aHe T h1 h2 h3 hj0
+    have hi := hHeInit_range _ c1
+    exact hHeLoop_range _ c2 (by rw [c3]; exact h4) 20 0 false _ hi.1 hi.2 hoff
+
+/-- non-vacuity: the shortcut `jH < 1e-20` never raises the flag -/
+example : (hHeSolve (1:ℝ) 1 0 0 1 0.1 8000).offDom = false := by
+  unfold hHeSolve; norm_num
 
 /-- non-vacuity: a state and coefficients satisfying every hypothesis (`ch2 = 0`) -/
 example : ∃ (c : HHeCoef ℝ) (s : HHeState ℝ), 0 ≤ c.che ∧ 0 ≤ c.aHe ∧ (0 < s.h0 ∧ s.h0 < 1) ∧
@@ -405,6 +426,151 @@ example : ∃ (i : TempIn ℝ Unit), i.tmin ≤ 4000 ∧
   · rfl
   · exact absurd ‹False› id
   · exact (tempMain_range _ _ (by norm_num)).1
+
+/-! ## the balance function and the state `calculate_temperature` leaves in the cell -/
+
+/-- `std::max(loss, 0.)`, `std::max(gain, 0.)`: for EVERY input (also NaN-free garbage: zero or
+negative densities, rates, any line cooling function) heating and cooling are non-negative. -/
+theorem balance_nonneg (p : BalParams ℝ) (r : BalRates ℝ) (L : ℝ → ℝ → Abund ℝ → ℝ) (T : ℝ) :
+    0 ≤ (balModel p r L T).bal.gain ∧ 0 ≤ (balModel p r L T).bal.loss := by
+  unfold balModel
+  simp only [amax_real]
+  have e : (0.0:ℝ) = 0 := by norm_num
+  rw [e]
+  exact ⟨le_max_right _ _, le_max_right _ _⟩
+
+/-- the abundances handed to the line cooling routine are non-negative and at most the element
+abundance whenever the coolant fractions are physical -/
+theorem abund_range (p : BalParams ℝ) (f : MetalOut ℝ) (hf : f.ok)
+    (hC : 0 ≤ p.aC) (hN : 0 ≤ p.aN) (hO : 0 ≤ p.aO) (hNe : 0 ≤ p.aNe) (hS : 0 ≤ p.aS) :
+    let a := abundOf p f
+    (0 ≤ a.cII ∧ a.cII ≤ p.aC) ∧ (0 ≤ a.cIII ∧ a.cIII ≤ p.aC) ∧ (0 ≤ a.nI ∧ a.nI ≤ p.aN) ∧
+    (0 ≤ a.nII ∧ a.nII ≤ p.aN) ∧ (0 ≤ a.nIII ∧ a.nIII ≤ p.aN) ∧ (0 ≤ a.oI ∧ a.oI ≤ p.aO) ∧
+    (0 ≤ a.oII ∧ a.oII ≤ p.aO) ∧ (0 ≤ a.oIII ∧ a.oIII ≤ p.aO) ∧ (0 ≤ a.neII ∧ a.neII ≤ p.aNe) ∧
+    (0 ≤ a.neIII ∧ a.neIII ≤ p.aNe) ∧ (0 ≤ a.sII ∧ a.sII ≤ p.aS) ∧ (0 ≤ a.sIII ∧ a.sIII ≤ p.aS) ∧
+    (0 ≤ a.sIV ∧ a.sIV ≤ p.aS) := by
+  obtain ⟨⟨c1, c2, c3, c4, c5⟩, ⟨n1, n2, n3, n4, n5, n6, n7⟩, ⟨o1, o2, o3, o4, o5⟩,
+    ⟨e1, e2, e3, e4, e5⟩, ⟨s1, s2, s3, s4, s5, s6, s7⟩⟩ := hf
+  have e : (1.0:ℝ) = 1 := by norm_num
+  have k : ∀ A g : ℝ, 0 ≤ A → 0 ≤ g → g ≤ 1 → 0 ≤ A * g ∧ A * g ≤ A := fun A g hA h0 h1 =>
+    ⟨mul_nonneg hA h0, by nlinarith⟩
+  simp only [abundOf, e]
+  refine ⟨k _ _ hC ?_ ?_, k _ _ hC c1 c2, k _ _ hN ?_ ?_, k _ _ hN n1 n2, k _ _ hN n3 n4,
+    k _ _ hO ?_ ?_, k _ _ hO o1 o2, k _ _ hO o3 o4, k _ _ hNe e1 e2, k _ _ hNe e3 e4,
+    k _ _ hS ?_ ?_, k _ _ hS s1 s2, k _ _ hS s3 s4⟩ <;> linarith
+
+/-- The balance function returns a physical state whenever its H/He solve does: if the neutral
+fractions returned by `compute_ionization_states_hydrogen_helium` at this temperature lie in
+`[0,1]` (searched, not proved: see `hHe_iterate_range_partial`), the density is positive, the He
+abundance non-negative and the rates physical, then either hydrogen is entirely neutral or all
+coolant fractions are in `[0,1]` with stage sums ≤ 1 (the electron density is then positive,
+which is what the unguarded call of the metal balance at lines 343-345 needs). -/
+theorem balModel_ok (p : BalParams ℝ) (r : BalRates ℝ) (L : ℝ → ℝ → Abund ℝ → ℝ) (T : ℝ)
+    (hn : 0 < p.n) (hA : 0 ≤ p.aHe) (hr : RatesHyp r.m)
+    (hh : 0 ≤ (hHeSolve r.alphaH r.alphaHe p.jH p.jHe p.n p.aHe T).h0 ∧
+      (hHeSolve r.alphaH r.alphaHe p.jH p.jHe p.n p.aHe T).h0 ≤ 1)
+    (hhe : 0 ≤ (hHeSolve r.alphaH r.alphaHe p.jH p.jHe p.n p.aHe T).he0 ∧
+      (hHeSolve r.alphaH r.alphaHe p.jH p.jHe p.n p.aHe T).he0 ≤ 1) :
+    BalOK (balModel p r L T).bal := by
+  set h0 := (hHeSolve r.alphaH r.alphaHe p.jH p.jHe p.n p.aHe T).h0 with hh0
+  set he0 := (hHeSolve r.alphaH r.alphaHe p.jH p.jHe p.n p.aHe T).he0 with hhe0
+  have e1 : (balModel p r L T).bal.h0 = h0 := rfl
+  have e2 : (balModel p r L T).bal.he0 = he0 := rfl
+  have e3 : (balModel p r L T).bal.met = metalFractions (withDensities r.m p.n p.aHe h0 he0) := rfl
+  unfold BalOK
+  rw [e1, e2, e3]
+  refine ⟨hh, hhe, ?_⟩
+  rcases eq_or_lt_of_le hh.2 with h1 | h1
+  · exact Or.inl h1
+  · right
+    have hrm : RatesHyp (withDensities r.m p.n p.aHe h0 he0) := ⟨hr.j, hr.a, hr.ct⟩
+    apply metals_range_of_rates _ hrm
+    · show 0 < p.n * (1.0 - h0 + p.aHe * (1.0 - he0))
+      apply mul_pos hn
+      have : 0 ≤ p.aHe * (1.0 - he0) := mul_nonneg hA (by norm_num; exact hhe.2)
+      norm_num at this ⊢; linarith
+    · show 0 ≤ p.n * h0; exact mul_nonneg hn.le hh.1
+    · show 0 ≤ p.n * he0 * p.aHe; exact mul_nonneg (mul_nonneg hn.le hhe.1) hA
+    · show 0 ≤ p.n * (1.0 - h0)
+      apply mul_nonneg hn.le; norm_num; exact hh.2
+
+/-- the physical cell state after `calculate_temperature` -/
+def OutOK (r : TempOut ℝ (MetalOut ℝ)) : Prop :=
+  (0 ≤ r.h0 ∧ r.h0 ≤ 1) ∧ (0 ≤ r.he0 ∧ r.he0 ≤ 1) ∧ (r.metZero = false → r.met.ok)
+
+/-- For EVERY balance function whose evaluations are physical (`BalOK`: fractions in `[0,1]`,
+coolants physical unless hydrogen is entirely neutral), every tolerance, iteration limit and
+previous cell content, a call of `calculate_temperature` that returns leaves H and He neutral
+fractions in `[0,1]` and coolant fractions that are either reset to zero or physical (each in
+`[0,1]`, stage sums ≤ 1) — through every special case, clamp and reset of lines 578-917. -/
+theorem temperature_state_physical (bal : ℝ → ℝ → Bal ℝ (MetalOut ℝ))
+    (hb : ∀ c T, BalOK (bal c T)) (i : TempIn ℝ (MetalOut ℝ))
+    (hna : (temperatureCell bal i).abort = false) : OutOK (temperatureCell bal i) := by
+  unfold temperatureCell at hna ⊢
+  simp only [] at hna ⊢
+  split_ifs at hna ⊢ with h1 h2 h3
+  · unfold OutOK; norm_num
+  · unfold OutOK; norm_num
+  · unfold tempMain
+    simp only []
+    have hs0 : StateOK (⟨tempInit i.Told, 0.0, 0.0, 1.0, 0.0, i.met0⟩ : TState ℝ (MetalOut ℝ)) := by
+      unfold StateOK; norm_num
+    have hl := tempLoop_ok (bal (crfacEff i.crfac i.crcell)) (hb _) i.eps i.tmin i.maxit 0 _ hs0
+    generalize (tempLoop (bal (crfacEff i.crfac i.crcell)) i.eps i.tmin i.maxit 0
+      ⟨tempInit i.Told, 0.0, 0.0, 1.0, 0.0, i.met0⟩) = res at hl ⊢
+    obtain ⟨a1, a2, a3⟩ := hl
+    unfold tempFinish OutOK
+    simp only []
+    refine ⟨?_, ?_, ?_⟩
+    · split_ifs <;> first | exact a1 | norm_num
+    · split_ifs <;> first | exact a2 | norm_num
+    · intro hz
+      simp only [Bool.or_eq_false_iff, decide_eq_false_iff_not, feq_real] at hz
+      obtain ⟨z1, z2⟩ := hz
+      split_ifs at z1 z2 with hm
+      · exact absurd (by norm_num : (1.0:ℝ) = 1.0) z1
+      · rcases a3 with h | h | h
+        · exact absurd (by rw [h]; norm_num) z1
+        · exact absurd (by norm_num at h ⊢; exact h) z2
+        · exact h
+
+/-- The same for the MODELLED balance function (`balModel`: H/He solve, heating terms, metal
+balance, abundances, free-free and recombination cooling; the line cooling routine `L` and the
+rate tables `rates T` arbitrary): the only hypothesis left about the physics is that every H/He
+solve the iteration performs returns fractions in `[0,1]` (`hsolve`; searched on the
+implementation, not proved — the H/He fixed point has no convergence theorem). -/
+theorem temperature_model_state_physical (p : BalParams ℝ) (rates : ℝ → BalRates ℝ)
+    (L : ℝ → ℝ → Abund ℝ → ℝ) (i : TempIn ℝ (MetalOut ℝ))
+    (hn : 0 < p.n) (hA : 0 ≤ p.aHe) (hr : ∀ T, RatesHyp (rates T).m)
+    (hsolve : ∀ T, (0 ≤ (hHeSolve (rates T).alphaH (rates T).alphaHe p.jH p.jHe p.n p.aHe T).h0 ∧
+        (hHeSolve (rates T).alphaH (rates T).alphaHe p.jH p.jHe p.n p.aHe T).h0 ≤ 1) ∧
+      (0 ≤ (hHeSolve (rates T).alphaH (rates T).alphaHe p.jH p.jHe p.n p.aHe T).he0 ∧
+        (hHeSolve (rates T).alphaH (rates T).alphaHe p.jH p.jHe p.n p.aHe T).he0 ≤ 1))
+    (hna : (temperatureCell (fun c T => (balModel { p with crfac := c } (rates T) L T).bal) i).abort
+      = false) :
+    OutOK (temperatureCell (fun c T => (balModel { p with crfac := c } (rates T) L T).bal) i) := by
+  apply temperature_state_physical _ _ i hna
+  intro c T
+  exact balModel_ok { p with crfac := c } (rates T) L T hn hA (hr T) (hsolve T).1 (hsolve T).2
+
+/-- `temperature_model_state_physical` with the hypothesis on the H/He solves replaced by the
+CHECKED premise: if none of the H/He solves the iteration can perform raises `offDom` (evaluated
+by the `Float` run on every generated balance evaluation) and the recombination rates are
+non-negative, the cell state after `calculate_temperature` is physical. -/
+theorem temperature_model_state_checked (p : BalParams ℝ) (rates : ℝ → BalRates ℝ)
+    (L : ℝ → ℝ → Abund ℝ → ℝ) (i : TempIn ℝ (MetalOut ℝ))
+    (hn : 0 < p.n) (hA : 0 ≤ p.aHe) (hr : ∀ T, RatesHyp (rates T).m)
+    (ha : ∀ T, 0 ≤ (rates T).alphaH ∧ 0 ≤ (rates T).alphaHe)
+    (hoff : ∀ T, (hHeSolve (rates T).alphaH (rates T).alphaHe p.jH p.jHe p.n p.aHe T).offDom = false)
+    (hna : (temperatureCell (fun c T => (balModel { p with crfac := c } (rates T) L T).bal) i).abort
+      = false) :
+    OutOK (temperatureCell (fun c T => (balModel { p with crfac := c } (rates T) L T).bal) i) :=
+  temperature_model_state_physical p rates L i hn hA hr
+    (fun T => hHe_solve_range_checked _ _ _ _ _ _ _ (ha T).1 (ha T).2 hn.le hA (hoff T)) hna
+
+/-- non-vacuity of `BalOK` / `temperature_state_physical`: a physical balance function exists -/
+example : ∃ bal : ℝ → ℝ → Bal ℝ (MetalOut ℝ), ∀ c T, BalOK (bal c T) :=
+  ⟨fun _ _ => ⟨1, 1, 0, 0, constMetals 0 0 0 0 0⟩, fun _ _ => by unfold BalOK; norm_num⟩
 
 /-! ## outputs depend on the inputs of the update only -/
 
